@@ -148,7 +148,8 @@ def run_check(prop, tier, seed):
     core.write_evidence(prop, tier, seed, 'model_checking', cov, time.time() - t0, len(violations), P['assumptions'])
     if os.environ.get('VERIF_KEEP') != '1':
         shutil.rmtree(work, ignore_errors=True)
-    log('[done] %s %s: %d scenarios, %d violations, %.1fs' % (prop, tier, len(scens), len(violations), time.time() - t0))
+    log('[done] %s %s: %d scenarios, %d violations%s, %.1fs' % (prop, tier, len(scens), len(violations),
+        (', %d rejections attributed to other properties' % len(foreign)) if foreign else '', time.time() - t0))
     return 1 if violations else 0
 
 
